@@ -228,7 +228,20 @@ func (t *streamable) Name() string {
 func (t *streamable) Kind() string   { return "streamable" }
 func (t *streamable) Reg() *Registry { return t.reg }
 
-func (t *streamable) Close() { t.fresh.CloseIdleConnections(); t.fx.Close() }
+func (t *streamable) Close() {
+	t.fresh.CloseIdleConnections()
+	closeWithin(3*time.Second, t.fx.Close)
+}
+
+// closeWithin: httptest.Server.Close waits for every handler; a handler that is stuck for good must not hang the run.
+func closeWithin(d time.Duration, f func()) {
+	done := make(chan struct{})
+	go func() { f(); close(done) }()
+	select {
+	case <-done:
+	case <-time.After(d):
+	}
+}
 
 func (t *streamable) headers(in Input) map[string]string {
 	h := map[string]string{"Accept": "application/json"}
@@ -662,8 +675,7 @@ func (t *sseTarget) Reg() *Registry { return t.reg }
 func (t *sseTarget) Close() {
 	t.peer.close()
 	t.hc.CloseIdleConnections()
-	t.ts.CloseClientConnections()
-	t.ts.Close()
+	closeWithin(3*time.Second, func() { t.ts.CloseClientConnections(); t.ts.Close() })
 }
 
 func (t *sseTarget) do(verb, url string, body []byte, hdr map[string]string) (int, []byte, error) {
